@@ -317,6 +317,7 @@ fn run(cmd: &str, args: &[String], seed: u64, rep: &mut Report) {
             };
             settings::replay(&ctx, &read_ndjson(arg(&args, "--in").unwrap()), seed, &mut rep);
             settings::clap_texts(&ctx, seed, &mut rep);
+            settings::extras_use(&ctx, seed, &mut rep);
         }
         "common-view" => {
             let ctx = fuzz::Ctx {
